@@ -7,7 +7,8 @@ NF, EF = 'ipr::impl::name_factory::', 'ipr::impl::expr_factory::'
 AN = 'ipr::impl::(anonymous namespace)::'
 SV = 'St17basic_string_viewIDuSt11char_traitsIDuEE'
 G = dict(
-    identifier=(NF + 'get_identifier', '=_ZN3ipr4impl12name_factory14get_identifierERKNS_6StringE'), suffix=(NF + 'get_suffix', None),
+    identifier=(NF + 'get_identifier', '=_ZN3ipr4impl12name_factory14get_identifierERKNS_6StringE'), identifier_w=(NF + 'get_identifier', '=_ZN3ipr4impl12name_factory14get_identifierE' + SV),
+    operator_w=(NF + 'get_operator', '=_ZN3ipr4impl12name_factory12get_operatorE' + SV), suffix=(NF + 'get_suffix', None),
     operator=(NF + 'get_operator', '=_ZN3ipr4impl12name_factory12get_operatorERKNS_6StringE'), ctor_name=(NF + 'get_ctor_name', None), dtor_name=(NF + 'get_dtor_name', None),
     conversion=(NF + 'get_conversion', None), guide_name=(NF + 'get_guide_name', None), logogram=(NF + 'get_logogram', None),
     linkage=(EF + 'get_linkage', '=_ZN3ipr4impl12expr_factory11get_linkageERKNS_6StringE'), linkage_w=(EF + 'get_linkage', '=_ZN3ipr4impl12expr_factory11get_linkageE' + SV),
@@ -34,7 +35,7 @@ def specs():
     un = lambda what, v: [('(void*)@{vcall:%s}(&r1->__b0.__b1) == (void*)a0' % v, 'the %s reports the operand it was requested with' % what)]
     S['identifier'] = two('identifier', 'NFAC', 'S', 'identifier', un('identifier', 'unary_string_operand') + [
         ('a0 != S0 || r1 == IDENT_OF_WORD(R0)', 'the Identifier of a reserved spelling is the one and only reserved Identifier (the name of the built-in type / constant), not a look-alike')], order=False)
-    S['identifier']['rw'] = ['int', 'C++', 'default']
+    S['identifier']['rw'] = ['int', 'C++', 'default', '@first', '@last', '@longest', '@shortest']
     S['identifier_order'] = two('identifier', 'NFAC', 'F', 'identifier (non-reserved spellings)')
     S['operator'] = two('operator', 'NFAC', 'F', 'operator name', un('operator name', 'unary_string_operand'))
     S['suffix'] = two('suffix', 'NFAC', 'I', 'literal-suffix name', un('suffix', 'unary_ident_operand'))
@@ -46,7 +47,7 @@ def specs():
         ('a0 != S0 || r1 == LOGO_OF_WORD(R0)', 'the logogram of a reserved word is the reserved table entry'),
         ('a0 != S1 || r1 == &g__ZN3ipr4impl12_GLOBAL__N_114invisible_logoE.__b0', 'the logogram of the empty word is the invisible logogram'),
         ('@{vcall:unary_string_operand}(&r1->__b0) == a0', 'a logogram spells the String it was requested with')], order=False)
-    S['logogram']['rw'] = ['int', 'C']
+    S['logogram']['rw'] = ['int', 'C', '@longest', '@last']
     S['logogram_order'] = two('logogram', 'NFAC', 'F', 'logogram (non-reserved spellings)')
     S['linkage'] = two('linkage', 'FAC', 'S', 'linkage', [
         ('!(RW_IS_C && a0 == S0) || r1 == &g__ZN3ipr4impl12_GLOBAL__N_16c_linkE', 'the linkage spelled C is the C linkage constant'),
@@ -62,6 +63,23 @@ def specs():
                                                        ('@{symbol_type}((void*)r1) == a1', 'a symbol reports the type it was requested with')])
     S['label'] = two('label', 'FAC', 'J', 'label', [('a0 != ID_DEFAULT || (void*)r1 == (void*)&g__ZN3ipr4impl12_GLOBAL__N_111default_cstE', 'the label `default` is the default constant, not a look-alike')], order=False)
     S['this'] = two('this', 'FAC', 'T', '`this`', [('@{symbol_type}((void*)r1) == a0', '`this` has the type it was requested with')], order=False)
+    S['symbol_then_label'] = dict(pre='  name_t* a0 = NM[pick(NPOOL)]; type_t* a1 = TY[pick(NPOOL)]; ident_t* b0 = ID[pick(NPOOL)];\n', call1='@{G_symbol}(FAC, a0, a1)', call2='@{G_label}(FAC, b0)',
+        same='0', checks=[], post=[('@{symbol_type}((void*)r1) == a1', 'a symbol obtained earlier keeps the type it was requested with when a label is requested afterwards'),
+                                   ('(void*)@{vcall:unary_name_operand}(&r1->__b0.__b1) == (void*)a0', 'a symbol obtained earlier keeps its name when a label is requested afterwards')],
+        claim='a label is never the node of a symbol of another type requested earlier (symbols, labels and `this` share one table)', what='symbol, then label')
+    S['symbol_then_this'] = dict(pre='  name_t* a0 = NM[pick(NPOOL)]; type_t* a1 = TY[pick(NPOOL)]; type_t* b0 = TY[pick(NPOOL)];\n', call1='@{G_symbol}(FAC, a0, a1)', call2='@{G_this}(FAC, b0)',
+        same='0', checks=[], post=[('@{symbol_type}((void*)r1) == a1', 'a symbol obtained earlier keeps its type when `this` is requested afterwards')],
+        claim='`this` is never the node of an unrelated symbol requested earlier', what='symbol, then this')
+    S['label_then_symbol'] = dict(pre='  ident_t* a0 = ID[pick(NPOOL)]; name_t* b0 = NM[pick(NPOOL)]; type_t* b1 = TY[pick(NPOOL)];\n', call1='@{G_label}(FAC, a0)', call2='@{G_symbol}(FAC, b0, b1)',
+        same='0', checks=[], post=[('@{symbol_type}((void*)r2) == b1', 'a symbol requested after a label has the type it was requested with')],
+        claim='a symbol of a foreign type is never the node of a label requested earlier', what='label, then symbol')
+    W = '  static unsigned char buf[1]; buf[0] = nondet_bool() ? 97 : 98; sv_t w; w.f__M_len = 1; w.f__M_str = buf; unsigned char first = buf[0];\n'
+    for k, fn, acc in (('identifier_word', 'identifier_w', 'unary_string_operand'), ('operator_word', 'operator_w', 'unary_string_operand')):
+        S[k] = dict(pre=W, call1='@{G_%s}(NFAC, w)' % fn, mid='  buf[0] = nondet_bool() ? 97 : 98;      /* the caller reuses its buffer for the next word */\n', call2='@{G_%s}(NFAC, w)' % fn, same='first == buf[0]',
+                    checks=[('(void*)@{vcall:%s}(&r1->__b0.__b1) == (void*)(first == 97 ? S4 : S5)' % acc, 'the node is spelled by the String of the word given')],
+                    post=[('(void*)@{vcall:%s}(&r2->__b0.__b1) == (void*)(buf[0] == 97 ? S4 : S5)' % acc, 'the second node is spelled by the word the buffer holds at the second request'),
+                          ('(void*)@{vcall:%s}(&r1->__b0.__b1) == (void*)(first == 97 ? S4 : S5)' % acc, 'the first node keeps its spelling after the caller reused its buffer')],
+                    claim='a name asked by word through a reused buffer is the name of the word the buffer holds at that request', what=k.replace('_', ' by ') + ' (reused buffer)')
     S['literal'] = two('literal', 'FAC', 'TF', 'literal')
     S['template_id'] = two('template_id', 'FAC', 'EL', 'template-id')
     return S
@@ -78,7 +96,10 @@ def build(tier, seed):
     vroots = [names[k] for k in ('unary_string_operand', 'unary_ident_operand', 'unary_type_operand', 'unary_template_operand', 'unary_name_operand')]
     u = Unit('names', '/repo/src/impl.cxx', roots=sorted(set(f[0] for f in G.values())) + [NF + 'get_string', 'ipr::String::empty_string', 'ipr::impl::Expr<ipr::Symbol>::type'], vroots=vroots, names=names)
     def mkgen(rw):
-        def gen(unit):
+        def gen(unit, rw=rw):
+            if rw.startswith('@'):        # a word chosen by its place in the CURRENT table: first, last, longest, shortest entry
+                unit.word_index('int'); ws = unit._words
+                rw = dict(first=ws[0], last=ws[-1], longest=max(ws, key=len), shortest=min(ws, key=len))[rw[1:]]
             stubs, skipped, info = insert_stubs(unit, no_ctor_key=['get_symbol'])
             head = '#define RW_INDEX @{word:%s}\n#define RW_IS_C %d\n#define RW_IS_CPP %d\nstatic unsigned char sp_rw[%d] = { %s };\n' % (rw, rw == 'C', rw == 'C++', len(rw), ', '.join(str(ord(c)) for c in rw))
             text = head + open(os.path.join(VERIF, 'harness/C04/lib.h')).read() + stubs
@@ -88,7 +109,7 @@ def build(tier, seed):
     obs = []
     for n, s in SP.items():
         for rw in s.get('rw', ['int']):
-            suffix = ('.' + {'C++': 'Cpp'}.get(rw, rw)) if 'rw' in s else ''
+            suffix = ('.' + {'C++': 'Cpp'}.get(rw, rw).replace('@', '')) if 'rw' in s else ''
             o = Ob('C04.get.' + n + suffix, u, None, 'h_' + n, 'two requests (%s) from symbolic operand pools incl. the reserved spelling `%s`, the empty word and two other words: same request <=> same node; constants for reserved spellings' % (s['what'], rw),
                    kind='K1', replay='C04', timeout=1200, flags=['--unwind', '65'], objbits=12)
             o.gen = mkgen(rw); obs.append(o)
